@@ -14,8 +14,8 @@ P09q == [p \in {"+p", ".", "a", "ab", "d", "d-", "d/a", "e"} |-> IF p = "d/a" TH
 U11 == <<".", "d", "d/f", "dev", "e", "f", "g", "k", "l", "ro", "ro/f">>
 P11 == [p \in {".", "d", "d/f", "dev", "e", "f", "g", "k", "l", "ro", "ro/f"} |-> IF p = "d/f" THEN "d" ELSE IF p = "ro/f" THEN "ro" ELSE "."]
 
-U13 == <<".", "a", "b", "c", "d", "d/a", "d/b", "d/e", "d/e/a">>
-P13 == [p \in {".", "a", "b", "c", "d", "d/a", "d/b", "d/e", "d/e/a"} |-> IF p \in {"d/a", "d/b", "d/e"} THEN "d" ELSE IF p = "d/e/a" THEN "d/e" ELSE "."]
+U13 == <<".", "a", "b", "ba", "c", "d", "d/a", "d/b", "d/e", "d/e/a">>     \* "ba" merely ENDS with the pattern "a"
+P13 == [p \in {".", "a", "b", "ba", "c", "d", "d/a", "d/b", "d/e", "d/e/a"} |-> IF p \in {"d/a", "d/b", "d/e"} THEN "d" ELSE IF p = "d/e/a" THEN "d/e" ELSE "."]
 U14 == <<".", "d", "d/f", "dev", "f", "k", "l", "z">>
 P14 == [p \in {".", "d", "d/f", "dev", "f", "k", "l", "z"} |-> IF p = "d/f" THEN "d" ELSE "."]
 U01 == <<".", "a", "b", "d", "d-", "d/a">>
@@ -24,7 +24,7 @@ P01 == [p \in {".", "a", "b", "d", "d-", "d/a"} |-> IF p = "d/a" THEN "d" ELSE "
 U15 == <<"+p", "-d", ".", ".h", "Z", "a b", "data", "data-old", "data.txt", "data/inner">>
 P15 == [p \in {"+p", "-d", ".", ".h", "Z", "a b", "data", "data-old", "data.txt", "data/inner"} |-> IF p = "data/inner" THEN "data" ELSE "."]
 (* last path component of every path used in any universe *)
-BaseAll == [p \in {".", "a", "ab", "b", "c", "d", "d/a", "d/b", "d/c", "d/e", "d/e/a", "d/f", "e", "e/a", "f", "l", "ro", "ro/f", "s", "x", "x/f", "y", "z", "k", "d/l", "dev", "+p", "-d", "d-", "g", ".h", "Z", "a b", "data", "data-old", "data.txt", "data/inner"} |->
+BaseAll == [p \in {".", "a", "ab", "b", "c", "d", "d/a", "d/b", "d/c", "d/e", "d/e/a", "d/f", "e", "e/a", "f", "l", "ro", "ro/f", "s", "x", "x/f", "y", "z", "k", "d/l", "dev", "+p", "-d", "d-", "g", "ba", ".h", "Z", "a b", "data", "data-old", "data.txt", "data/inner"} |->
    CASE p \in {"d/a", "d/e/a", "e/a"} -> "a" [] p = "d/b" -> "b" [] p = "d/c" -> "c" [] p = "d/e" -> "e"
      [] p \in {"d/f", "ro/f", "x/f"} -> "f" [] p = "d/l" -> "l" [] p = "data/inner" -> "inner" [] OTHER -> p]
 =============================================================================
